@@ -32,6 +32,10 @@ PAYLOADS = [
     "'''", '"""', "\\N{DIGIT ONE}", "{0}", "%s", "%(x)s", "a\x00b", "x'\ny", "\\", "\\\\", "a\\", "\\'", "it's", 'say "hi"', "{", "}",
     "__class__", "None", "MISSING", "d", "value", "cls", "self", "kwargs",
     # long strings (identifiers, URNs, sentences): nothing may abbreviate, truncate or hash-collide them
+    # characters whose escaped spelling differs between repr(), json.dumps() and str.encode(): outside the Basic Multilingual
+    # Plane, combining marks, the line separators Python source does not treat like "\\n", BOM, directional marks, case-folding traps
+    "\U0001f600", "price_\U0001f4b0", "\U00020000", "\U0001d11e key", "e\u0301", "\x85", "\u2028", "\u2029", "\x7f", "\ufeff",
+    "\u200f", "\xdf", "\u0130", "\xa0", "\x1f",
     "urn:example:schema:alphaalphaalpha:payload-kind/v1.0", "x" * 300, "The quick brown fox's \"lazy\" dog\n" * 4,
 ]
 POSITIONS = ("alias_meta", "alias_annotated", "alias_config", "alias_meta_forbid", "alias_config_forbid", "alias_meta_allow",
